@@ -210,9 +210,12 @@ func vfC06Case(rt *rapid.T, c *ev.Collector) {
 		nw := rapid.IntRange(0, 3).Draw(rt, "clientWrites")
 		woff := 0
 		for i := 0; i < nw; i++ {
-			sz := rapid.SampledFrom([]int{0, 1, 1427, 1428, 2854, 3000}).Draw(rt, "clientWriteSize")
+			sz := rapid.SampledFrom([]int{0, 1, 1427, 1428, 2854, 3000, 32768, 70000}).Draw(rt, "clientWriteSize")
 			if br.IAT == iatParanoid && sz > 1428 {
 				sz = 1428
+			}
+			if br.IAT == iatEnabled && sz > 3000 {
+				sz = 3000
 			}
 			data := vfCounterStream(0, woff, sz)
 			res, wn, _ := cl.Write(data)
@@ -352,9 +355,12 @@ func vfC06Case(rt *rapid.T, c *ev.Collector) {
 		nw := rapid.IntRange(0, 3).Draw(rt, "serverWrites")
 		woff := 0
 		for i := 0; i < nw; i++ {
-			sz := rapid.SampledFrom([]int{0, 1, 1427, 1428, 2854, 3000}).Draw(rt, "serverWriteSize")
+			sz := rapid.SampledFrom([]int{0, 1, 1427, 1428, 2854, 3000, 32768, 70000}).Draw(rt, "serverWriteSize")
 			if br.IAT == iatParanoid && sz > 1428 {
 				sz = 1428
+			}
+			if br.IAT == iatEnabled && sz > 3000 {
+				sz = 3000
 			}
 			data := vfCounterStream(1, woff, sz)
 			res, wn, _ := sv.Write(data)
